@@ -399,6 +399,26 @@ fn queue_write(
     Ok(())
 }
 
+impl ZarrAsyncChainStorage {
+    /// Number of events recorded so far (since the last buffer reset) per event dimension.
+    ///
+    /// Not every field of an event is present on every event (some are optional), so the
+    /// count of a dimension is the largest count over its fields.
+    fn event_counts(&self) -> HashMap<String, u64> {
+        let mut counts: HashMap<String, u64> = HashMap::new();
+        for (field, dim) in &self.event_dim_of_stat {
+            let pushed = self
+                .stats_buffers
+                .get(field.as_str())
+                .map(|buf| buf.total_pushed())
+                .unwrap_or(0);
+            let entry = counts.entry(dim.clone()).or_insert(0);
+            *entry = (*entry).max(pushed);
+        }
+        counts
+    }
+}
+
 impl ChainStorage for ZarrAsyncChainStorage {
     type Finalized = HashMap<String, (u64, u64)>;
 
@@ -411,17 +431,7 @@ impl ChainStorage for ZarrAsyncChainStorage {
     ) -> Result<()> {
         let is_first_draw = self.last_sample_was_warmup && !info.tuning;
         if is_first_draw {
-            {
-                let mut seen = std::collections::HashSet::new();
-                for (field, dim) in &self.event_dim_of_stat {
-                    if seen.insert(dim.as_str()) {
-                        if let Some(buf) = self.stats_buffers.get(field.as_str()) {
-                            self.warmup_event_counts
-                                .insert(dim.clone(), buf.total_pushed());
-                        }
-                    }
-                }
-            }
+            self.warmup_event_counts = self.event_counts();
             for (key, buffer) in self.draw_buffers.iter_mut() {
                 if let Some(chunk) = buffer.reset() {
                     let array = self.arrays.warmup_draw_arrays[key].clone();
@@ -473,15 +483,12 @@ impl ChainStorage for ZarrAsyncChainStorage {
     /// Flush remaining samples and finalize storage, joining all pending writes
     fn finalize(self) -> Result<Self::Finalized> {
         // Collect sample counts before consuming stats_buffers
-        let mut seen = std::collections::HashSet::new();
-        let mut sample_counts: HashMap<String, u64> = HashMap::new();
-        for (field, dim) in &self.event_dim_of_stat {
-            if seen.insert(dim.as_str()) {
-                if let Some(buf) = self.stats_buffers.get(field.as_str()) {
-                    sample_counts.insert(dim.clone(), buf.total_pushed());
-                }
-            }
-        }
+        // A chain that never left warmup has recorded all its events into the warmup arrays.
+        let (warmup_counts, sample_counts) = if self.last_sample_was_warmup {
+            (self.event_counts(), HashMap::new())
+        } else {
+            (self.warmup_event_counts.clone(), self.event_counts())
+        };
 
         // Handle remaining buffers synchronously
         for (key, mut buffer) in self.draw_buffers.into_iter() {
@@ -524,11 +531,7 @@ impl ChainStorage for ZarrAsyncChainStorage {
             .collect::<std::collections::HashSet<_>>()
             .into_iter()
             .map(|dim| {
-                let w = self
-                    .warmup_event_counts
-                    .get(dim.as_str())
-                    .copied()
-                    .unwrap_or(0);
+                let w = warmup_counts.get(dim.as_str()).copied().unwrap_or(0);
                 let s = sample_counts.get(dim.as_str()).copied().unwrap_or(0);
                 (dim.clone(), (w, s))
             })
@@ -537,22 +540,21 @@ impl ChainStorage for ZarrAsyncChainStorage {
     }
 
     fn inspect(&self) -> Result<Option<Self::Finalized>> {
-        let mut seen = std::collections::HashSet::new();
+        let current = self.event_counts();
         let mut counts = HashMap::new();
-        for (field, dim) in &self.event_dim_of_stat {
-            if seen.insert(dim.as_str()) {
-                let s = self
-                    .stats_buffers
-                    .get(field.as_str())
-                    .map(|b| b.total_pushed())
-                    .unwrap_or(0);
+        for dim in self.event_dim_of_stat.values() {
+            let cur = current.get(dim.as_str()).copied().unwrap_or(0);
+            let (w, s) = if self.last_sample_was_warmup {
+                (cur, 0)
+            } else {
                 let w = self
                     .warmup_event_counts
                     .get(dim.as_str())
                     .copied()
                     .unwrap_or(0);
-                counts.insert(dim.clone(), (w, s));
-            }
+                (w, cur)
+            };
+            counts.insert(dim.clone(), (w, s));
         }
         Ok(Some(counts))
     }
